@@ -13,6 +13,34 @@ STUB_SETS = {
 DEFAULT_VARIANT = [dict(name="default", env={}, target="kani")]
 
 PROPS = {
+    "C06": dict(
+        modules=["c06", "c06t"],
+        quick=dict(jobs=14, timeout_s=900, mem_gb=8),
+        thorough=dict(jobs=14, timeout_s=3600, mem_gb=16),
+        bounds="constrain_idxs: all i32 start/end, len <= 65536; nodes: stack depth 0..4 (quick: 0,2,3), slice bounds -3..3 at depth 2 "
+               "(quick) / -6..6 at depths 0..4 (thorough), text of 5 bytes over {a,b} with entries of 1-2 bytes, every cursor position",
+        outside="stack depth > 4; entry texts other than the fixed 1-2 byte layout; stack built-ins under enclosing snapshots (C05)",
+        explanation="Bounded model checking of PEEK/POP/DROP/PEEK_ALL/POP_ALL/PeekSlice1/2/Push on the real pest::Stack against a list model.",
+        assumptions=["the text is ASCII over {a,b} (entries are compared as byte strings)"],
+        claim="For every text and cursor within the bound the stack built-ins accept/consume exactly what the list model says, "
+              "leave the stack as specified, and fail (never panic) on empty stack / out-of-range slices; index normalisation "
+              "is proved for all i32.",
+        note="Trusts Kani/CBMC/CaDiCaL; stub set T0 (tracker bookkeeping no-ops).",
+    ),
+    "C12": dict(
+        modules=["c12"],
+        quick=dict(jobs=12, timeout_s=900, mem_gb=10),
+        thorough=dict(jobs=8, timeout_s=5400, mem_gb=30),
+        bounds="line_col: every valid UTF-8 string of exactly 0..5 bytes (quick) / ..7 bytes plus 3-character strings over six "
+               "character kinds (thorough), every usize offset; line_of: every string of 2..3 (quick) / 4 (thorough) bytes over {LF,CR,'a'}",
+        outside="strings longer than the stated byte bounds (the property's 7 *characters* = up to 28 bytes is not reached); long random texts",
+        explanation="Bounded model checking (Kani/CBMC) of the compiled Position::line_col/line_of against pest::Position "
+                    "(also compiled real code) on symbolic strings and offsets.",
+        assumptions=["input bytes form valid UTF-8"],
+        claim="For every valid UTF-8 string within the byte bound and every offset, Position::new accepts exactly the char "
+              "boundaries and line_col/line_of return what pest::Position returns (line_of: the identical sub-slice).",
+        note="Trusts Kani's MIR->GOTO translation, CBMC and CaDiCaL; bounded by input length; pest 2.7.14 is the oracle.",
+    ),
     "C13": dict(
         modules=["c13"],
         quick=dict(jobs=8, timeout_s=600, mem_gb=10),
